@@ -949,6 +949,21 @@ pub mod unit {
         lemma_bridge_one_price(r.costing_parameters.execution_cost_unit_price.v(), tip_prop(t), r.execution_cost_units_committed as int);
         lemma_bridge_one_price(r.costing_parameters.finalization_cost_unit_price.v(), tip_prop(t), r.finalization_cost_units_committed as int);
     }
+    /// headline of the property at reserve level (under the same precondition): free credit + non-contingent locked
+    /// fees - what is left in the balance (+ bad debt) == the total cost reported by finalize()
+    /// (total_cost() == the sum of the five cost fields is proved on the real code in unit c06_fee_summary)
+    pub open spec fn total_cost_of(s: FeeReserveFinalizationSummary) -> int {
+        s.total_execution_cost_in_xrd.v() + s.total_finalization_cost_in_xrd.v() + s.total_tipping_cost_in_xrd.v()
+        + s.total_storage_cost_in_xrd.v() + s.total_royalty_cost_in_xrd.v()
+    }
+    pub proof fn lemma_paid_equals_total_cost(r: R)
+        requires inv(r), ledger_ok(r), finalize_in_range(r), tip_exact(r)
+        ensures
+            r.transaction_costing_parameters.free_credit_in_xrd.v() + locked_nc(r.locked_fees@) - r.xrd_balance.v() + r.xrd_owed.v()
+                == total_cost_of(summary_of(r))
+    {
+        lemma_bridge_exact_tip(r);
+    }
     /// ... and that precondition is the weakest one: whenever the two numbers agree, tip_exact holds
     /// (the reserve never deducts MORE than finalize() reports, so the two per-price gaps cannot cancel)
     pub proof fn lemma_bridge_exact_tip_is_weakest(r: R)
